@@ -20,6 +20,21 @@ def encRes : Res → PyVal
   | .error .valueError => .list [.str "err", .str "ValueError"]
   | .error (.other n) => .list [.str "err", str n]
 
+def decTy : PyVal → Option Ty
+  | .str s => some (.member s.toList)
+  | .int 0 => some .zero
+  | _ => none
+
+def decOptNat : PyVal → Option (Option Nat)
+  | .none => some none
+  | .int i => if i ≥ 0 then some (some i.toNat) else none
+  | _ => none
+
+def decOptStr : PyVal → Option (Option Str)
+  | .none => some none
+  | .str s => some (some s.toList)
+  | _ => none
+
 def handle (op : String) (args : List PyVal) : Option (List PyVal) :=
   match op, args with
   | "from_name", [.str s] => some [encRes (fromName s.toList)]
@@ -42,6 +57,13 @@ def handle (op : String) (args : List PyVal) : Option (List PyVal) :=
     | .ok (.varchar n) => some [.list [.str "VARCHAR", .int n]]
     | .ok (.blob n) => some [.list [.str "BLOB", .int n]]
     | .ok (.bare b) => some [.list [.str "bare", str b]]
+  | "code", [ty, len, p, q, e] => do
+    -- the type code `description` reports for a column with these five attributes, and what it resolves to
+    let d : Desc := { ty := ← decTy ty, length := ← decOptNat len, precision := ← decOptNat p,
+                      scale := ← decOptNat q, elem := ← decOptStr e }
+    match typeCode d with
+    | none => pure [.none, .none]
+    | some code => pure [str code, encRes (fromName code)]
   | "tables", [] =>
     some [.list (baseTypes.map str), .list (scalarTypes.map str), .list (memberNames.map str), .bool regexPinned]
   | _, _ => none
